@@ -19,6 +19,21 @@ CHECKS = {
    text='Theorems C03_tiling, C03_none_absorbing, C03_fb_str_ok (closed): under the certificates, iterating next() never gets stuck or runs out of fuel, yields finitely many items then None with span len..len forever, and items plus skipped regions are non-empty, contiguous from 0 to the input length, for every callback oracle that bumps in range. "No empty-matching definition is accepted" is decided per definition by dfa_ok (no unit successor of the start state is a match state) on every accepted definition of the corpora, including random definitions with nullable patterns.',
    design='DESIGN.md sections 5, 7 (C03)',
    note='As C01/C02. The iterator is additionally called three more times after None in K2.'),
+ 'C06': dict(
+   technique='Coq proof (induction; fast-loop / fork-lookup lemmas) that the per-state program emitted by both generators equals the reference semantics + differential run of both generators',
+   text='Theorems C06_opt_is_ref, C06_generators_agree (closed): the per-state program both generators emit (unrolled self-loop with any unroll factor, record, one-byte fork rendered as if-chain or 256-entry table, end-of-input block) computes the reference walk on every well-formed graph, for every input, in ordinary and partial mode; hence any two renderings agree. wf_graph is re-evaluated on every accepted definition per run. The tail-call and state-machine lexers are compiled and compared with each other and with the model on all probes (results, spans, final spans, both modes); state-machine output is scanned structurally; long inputs run on a 128 KiB stack.',
+   design='DESIGN.md sections 5.2, 7 (C06)',
+   note='Both generators share one model (they differ only in transition rendering, which no result observes); the tie of each generator to that model is K2. Stack usage is supported by structure scan + small-stack runs, not proved (partial).'),
+ 'C07': dict(
+   technique='Coq proof (structural induction over the prefix) of prefix safety for every graph + promptness certificate + differential run of partial vs one-shot lexers on every split',
+   text='Theorems C07_next_prefix_safe, C07_next_prefix_none (closed, no certificate needed): for every graph, input w and split k, an item the partial lexer yields over w[..k] (after the same skipped regions) is exactly what the ordinary lexer yields over w, and at None the reported empty span s..s is where the ordinary lexer continues. Promptness: boolean certificate prompt_ok (determined pairs do not return None, or one byte later) evaluated on every paired state of every accepted definition. Real partial lexers are run on every prefix of generated inputs against the real one-shot lexer (the property\'s own oracle) and the model. Finding F1 was re-found by this check and fixed (known_findings.txt).',
+   design='DESIGN.md sections 7 (C07), 9 (F1)',
+   note='Promptness Prop-level reading of prompt_ok is not a Coq theorem yet (safety half is fully proved); chunk schedules follow from the per-call theorems by iteration. Callbacks bumping past the prefix panic in real code (outside the theorem).'),
+ 'C20': dict(
+   technique='Coq proof (induction over visits; sorted-log composition lemmas) on the read log of the emitted per-state program + exact trace correspondence through the read hook',
+   text='Theorem C20_reads_monotone_linear (closed): for every graph, unroll factor >= 1, mode and input, the offsets read within one attempt never decrease, none precedes the attempt start, and #reads <= 3 * (offsets examined), independent of the graph. With C06_opt_is_ref the log belongs to the program that computes the reference semantics. The real read trace (hook in Lexer::read, next and trivia) of both generators equals the model log exactly on all probes, and the bound / monotonicity / restart-at-item-end are also checked directly on the real traces.',
+   design='DESIGN.md sections 5.2, 7 (C20)',
+   note='Trace equality is for unroll factor 8 (the value in generator/mod.rs). Callbacks are outside the property.'),
 }
 
 def main():
